@@ -65,8 +65,13 @@ RULES = {
     "(`replace_all_uses_with`), the recorded initializer has passed a test that rejects graph inputs (`is_graph_input()`, directly or in "
     "the skip predicate called with arguments that leave that test switched on) - an initializer that is also a graph input is only a "
     "default; a constant folded into it changes value as soon as the caller feeds the input",
+    "R15": "a value that is part of an interface keeps its name: where a pass lets a surviving value take over the name of a value it "
+    "replaces (`<a>.name = <b>.name`), the survivor is a value the pass has just created, or the statement is reached only when "
+    "`<a>.is_graph_output()` is known to be false (an exit or branch on that test governs it) - otherwise an Identity between two graph "
+    "outputs is folded by renaming the first output to the second: the graph then lists one value twice and the name of the first "
+    "output is gone (the common-subexpression pass, which tests this and keeps an Identity, is the reference)",
 }
-FLOORS = {"R1": 5, "R2": 6, "R3": 8, "R4": 6, "R5": 8, "R6": 2, "R7": 1, "R8": 10, "R9": 1, "R10": 3, "R11": 1, "R12": 2, "R13": 2, "R14": 2}
+FLOORS = {"R1": 5, "R2": 6, "R3": 8, "R4": 6, "R5": 8, "R6": 2, "R7": 1, "R8": 10, "R9": 1, "R10": 3, "R11": 1, "R12": 2, "R13": 2, "R14": 2, "R15": 2}
 EXPLANATION = (
     "Four structural necessary conditions of semantic preservation that the pass mechanisms rely on: guarded removal, "
     "interface-size preservation (call-site scan with receiver typing), data-dependence of the equivalence keys on all "
@@ -369,11 +374,23 @@ def rule_r4(ctx):
         # the output-side condition may be a local bound to output_value.is_graph_output()
         outs = [n for n in own_nodes(f.node) if isinstance(n, ast.Assign) and norm(n.value).endswith(".is_graph_output()")]
         out_ok = ".is_graph_output()" in t or (outs and norm(outs[0].targets[0]) in t)
+        if not out_ok:
+            # the output-side condition may be the test of an if that encloses the guard
+            par = getattr(guard[0], "_parent", None)
+            while par is not None and par is not f.node:
+                if isinstance(par, ast.If) and guard[0] in ast.walk(ast.Module(body=par.body, type_ignores=[])):
+                    tt = norm(par.test)
+                    out_ok = out_ok or ".is_graph_output()" in tt or bool(outs and norm(outs[0].targets[0]) in tt)
+                par = getattr(par, "_parent", None)
         out_var = norm(outs[0].value).split(".")[0] if outs else ""
         in_var = t.split(".is_graph_input()")[0].split("(")[-1].split(" ")[-1]
         defs = {norm(n.targets[0]): norm(n.value) for n in own_nodes(f.node) if isinstance(n, ast.Assign) and isinstance(n.targets[0], ast.Name)}
         ok = bool(out_ok) and defs.get(in_var) == "node.inputs[0]" and defs.get(out_var, "") == "node.outputs[0]"
-        gn = [x for x in cfg.node_of(guard[0]) if x.kind == "test"][0]
+        top = guard[0]
+        par = getattr(top, "_parent", None)
+        while isinstance(par, ast.If):
+            top, par = par, getattr(par, "_parent", None)
+        gn = [x for x in cfg.node_of(top) if x.kind == "test"][0]
         rewrites = [c for c in calls_in(f) if (dotted_of(c.func) or "").endswith("replace_all_uses_with") or (isinstance(c.func, ast.Attribute) and c.func.attr == "remove")]
         ok = ok and len(rewrites) >= 2 and all(cfg.dominates(gn, cfg.nodes_containing(c)[0]) for c in rewrites)
     ctx.check("R4", "identity elimination keeps an Identity from a graph input/initializer to a graph output", bool(ok), f, f.node,
@@ -996,7 +1013,69 @@ def rule_r14(ctx):
     ctx.require(n >= 2, f"only {n} merge tables over initializers found in the pass modules")
 
 
+def _excludes_call(test, recv: str, meth: str, want_positive: bool, neg=False) -> bool:
+    """The test mentions `<recv>.<meth>()` with the given polarity (`want_positive`: un-negated), Not flipping the polarity."""
+    if isinstance(test, ast.UnaryOp) and isinstance(test.op, ast.Not):
+        return _excludes_call(test.operand, recv, meth, want_positive, not neg)
+    if isinstance(test, ast.BoolOp):
+        return any(_excludes_call(v, recv, meth, want_positive, neg) for v in test.values)
+    if isinstance(test, ast.Call) and isinstance(test.func, ast.Attribute) and test.func.attr == meth and norm(test.func.value) == recv and not test.args:
+        return (not neg) == want_positive
+    return False
+
+
+def rule_r15(ctx):
+    n = 0
+    for m in ctx.repo.pkg_modules():
+        if not m.name.startswith("onnx_ir.passes.common.") or m.name.endswith("_test"):
+            continue
+        for f in ctx.repo.live(m.all_funcs):
+            if isinstance(f.node, ast.Lambda):
+                continue
+            for st in own_nodes(f.node):
+                if not (isinstance(st, ast.Assign) and len(st.targets) == 1 and isinstance(st.targets[0], ast.Attribute) and st.targets[0].attr == "name"
+                        and isinstance(st.value, ast.Attribute) and st.value.attr == "name" and isinstance(st.targets[0].value, ast.Name)):
+                    continue
+                a = st.targets[0].value.id
+                # the survivor was made by the pass itself (an output of a node it has just built, a new Value)
+                defs = [d.value for d in own_nodes(f.node) if isinstance(d, ast.Assign) and any(isinstance(t, ast.Name) and t.id == a for t in d.targets)]
+                made = bool(defs) and all(
+                    (isinstance(v, ast.Call) and (dotted_of(v.func) or "").split(".")[-1] in ("Value", "node", "Node"))
+                    or (isinstance(v, ast.Subscript) and isinstance(v.value, ast.Attribute) and v.value.attr == "outputs" and isinstance(v.value.value, ast.Name) and any(
+                        isinstance(d2, ast.Assign) and any(isinstance(t, ast.Name) and t.id == v.value.value.id for t in d2.targets) and isinstance(d2.value, ast.Call)
+                        and (dotted_of(d2.value.func) or "").split(".")[-1] in ("node", "Node") for d2 in own_nodes(f.node)))
+                    for v in defs)
+                n += 1
+                if made:
+                    ctx.ob("R15", f"{f.local}: `{norm(st)[:60]}` names a value the pass has just created", True, how="definition of the renamed value is a constructor / output of a new node")
+                    continue
+                governed = False
+                child, par = st, getattr(st, "_parent", None)
+                while par is not None:
+                    for fld in ("body", "orelse"):
+                        blk = getattr(par, fld, None)
+                        if isinstance(blk, list) and child in blk:
+                            for prev in blk[: blk.index(child)]:
+                                # an exit before the statement (possibly nested under further conditions of an earlier if)
+                                for g_ in ast.walk(prev):
+                                    if isinstance(g_, ast.If) and not g_.orelse and g_.body and isinstance(g_.body[-1], (ast.Return, ast.Raise, ast.Continue, ast.Break)) \
+                                            and _excludes_call(g_.test, a, "is_graph_output", True):
+                                        governed = True
+                            if isinstance(par, ast.If) and _excludes_call(par.test, a, "is_graph_output", fld == "orelse"):
+                                governed = True
+                    if par is f.node:
+                        break
+                    child, par = par, getattr(par, "_parent", None)
+                ctx.check("R15", f"{f.local}: `{norm(st)[:60]}` renames a value that is not itself a graph output", governed, f, st,
+                          f"`{norm(st)[:70]}` gives `{a}` the name of the value it replaces although nothing on the way excludes that `{a}` is a graph output itself: folding "
+                          f"`z = Identity(y)` with graph outputs [y, z] renames y to z - the graph lists one value twice and the output name `y` is gone",
+                          how="governing tests of the statement (enclosing branches, exits before it) mention `<survivor>.is_graph_output()` with the excluding polarity",
+                          construct=f"{a} renamed without asking whether it is a graph output")
+    ctx.require(n >= 2, f"only {n} take-over renames found in the pass modules")
+
+
 def run(ctx):
+    rule_r15(ctx)
     rule_r14(ctx)
     rule_r13(ctx)
     rule_r12(ctx)
